@@ -38,8 +38,15 @@ func vcCmd(args []string) {
 	work := fs.String("work", "/tmp/gvc-work", "work dir")
 	timeout := fs.Int("t", 10, "timeout seconds")
 	verbose := fs.Bool("v", false, "verbose")
+	spec := fs.String("spec", "", "extra contract files: pkgpath=file[,pkgpath=file…] (development: contracts kept outside the repository)")
 	fs.Parse(args)
-	p, err := eng.Load(eng.LoadConfig{ModDir: *dir, Patterns: fs.Args()})
+	extra := map[string][]string{}
+	for _, kv := range strings.Split(*spec, ",") {
+		if i := strings.Index(kv, "="); i > 0 {
+			extra[kv[:i]] = append(extra[kv[:i]], kv[i+1:])
+		}
+	}
+	p, err := eng.Load(eng.LoadConfig{ModDir: *dir, Patterns: fs.Args(), ExtraSpecs: extra})
 	if err != nil {
 		fmt.Fprintln(os.Stderr, "load:", err)
 		os.Exit(2)
